@@ -164,6 +164,7 @@ class CrashModel:
         [(state_at_crash, description of last effect)] and the set of final states."""
         crashes = []
         finals = set()
+        fin_stack = []
 
         def block(stmts, st, k):
             if not stmts:
@@ -182,6 +183,19 @@ class CrashModel:
                 return
             if isinstance(s0, ast.Return):
                 finals.add((st['out'], st['bak']))
+                return
+            if isinstance(s0, ast.Try) and self.mentions_file(s0) and not s0.orelse:
+                # `try: B finally: F` (and `except E: H`): normal path B;F. In addition every
+                # non-atomic write inside B may RAISE (disk full, unpicklable entry, second
+                # Ctrl-C): the file is left partial, then H and F run and the exception
+                # propagates. The state after that is where the next start finds the files.
+                cleanup = [x for h in s0.handlers for x in h.body] + list(s0.finalbody)
+                cleanup = [x for x in cleanup if not isinstance(x, ast.Raise)]
+                fin_stack.append(cleanup)
+                try:
+                    block(list(s0.body) + list(s0.finalbody), st, cont)
+                finally:
+                    fin_stack.pop()
                 return
             if isinstance(s0, (ast.For, ast.While, ast.Try, ast.With)):
                 if self.mentions_file(s0):
@@ -216,6 +230,16 @@ class CrashModel:
             elif kind == 'write':
                 st[w] = J
                 crashes.append(((st['out'], st['bak']), desc + ' [during write]'))
+                if fin_stack:
+                    # the write raises: clean-up code of the enclosing try blocks still runs
+                    cleanup = [x for blk in reversed(fin_stack) for x in blk]
+                    saved, fin_stack[:] = list(fin_stack), []
+                    try:
+                        block(cleanup, dict(st), lambda st3, d=desc: crashes.append(
+                            ((st3['out'], st3['bak']),
+                             d + ' [the write raised; the except/finally code ran]')))
+                    finally:
+                        fin_stack[:] = saved
                 st[w] = CM
                 crashes.append(((st['out'], st['bak']), desc + ' [written]'))
             return st
@@ -730,6 +754,7 @@ def run(prog, rep, tier):
         raise AnalysisError('RESUME-forward: fewer than 15 overrides delegate with resume_data')
     if check_override_returns(prog, rep) < 5:
         raise AnalysisError('RESUME-return: fewer than 5 value-returning overrides in simulations/')
+    check_checkpoint_priorities(prog, rep)
     if check_resume_sequential(prog, rep) < 1:
         raise AnalysisError('RESUME-sequential: no **mapping passed to run_seq_simulations')
     rep.floor('CRASH-typestate', 8)
@@ -1035,3 +1060,56 @@ def check_override_returns(prog, rep):
                               'the results' % (key_text(bare[0])[:60], ci.name, name),
                               bare[0].lineno)
     return n
+
+
+def check_checkpoint_priorities(prog, rep):
+    """RESUME-checkpoint-priority: listeners of the algorithm checkpoint run in descending
+    priority. The listener that takes the measurements of a checkpoint must run BEFORE the one
+    that saves the checkpoint (higher priority): otherwise the file on disk lacks that
+    measurement and a run resumed from it has one measurement less than the uninterrupted run."""
+    m = prog.module(SIM)
+    ct = prog.classtable()
+    ci = ct.get('Simulation')
+    save_p, meas_p = None, None
+    for name, f in ci.methods.items():
+        inner = {g.name: g for g in ast.walk(f) if isinstance(g, ast.FunctionDef) and g is not f}
+        for c in body_nodes(f):
+            if not (isinstance(c, ast.Call) and isinstance(c.func, ast.Attribute) and
+                    c.func.attr == 'connect' and unparse(c.func.value).endswith('.checkpoint')
+                    and c.args):
+                continue
+            pr = kwarg(c, 'priority')
+            if pr is None and len(c.args) > 1:
+                pr = c.args[1]
+            try:
+                val = 0 if pr is None else ast.literal_eval(pr)
+            except (ValueError, SyntaxError):
+                raise AnalysisError('checkpoint.connect: priority `%s` is not a literal' %
+                                    unparse(pr))
+            target = c.args[0]
+            what = None
+            if is_self_attr(target) and 'save' in target.attr:
+                what = 'save'
+            elif isinstance(target, ast.Name) and target.id in inner and any(
+                    isinstance(x, ast.Call) and isinstance(x.func, ast.Attribute) and
+                    x.func.attr == 'make_measurements' for x in ast.walk(inner[target.id])):
+                what = 'measure'
+            elif is_self_attr(target) and 'measure' in target.attr:
+                what = 'measure'
+            if what == 'save':
+                save_p = (val, c)
+            elif what == 'measure':
+                meas_p = (val, c)
+    if save_p is None or meas_p is None:
+        raise AnalysisError('checkpoint listeners for saving / measuring not found')
+    ok = meas_p[0] > save_p[0]
+    rep.instance('RESUME-checkpoint-priority', {'measure_priority': meas_p[0],
+                                                'save_priority': save_p[0], 'ok': ok})
+    if not ok:
+        rep.violation('RESUME-checkpoint-priority', m, 'Simulation._connect_measurements',
+                      'measure-after-save',
+                      'the checkpoint measurements are connected with priority %s, the '
+                      'checkpoint save with %s: listeners run in descending priority, so the '
+                      'checkpoint is written before its measurement is taken and a resumed run '
+                      'lacks it' % (meas_p[0], save_p[0]), meas_p[1].lineno)
+    return 1
